@@ -65,6 +65,9 @@ def run(chk: Check) -> None:
                 chk.distinct.add(t["meta"])
             sepcheck.validate(chk, rec, f"frame streams seplen={seplen} limit={limit}")
     chk.evaluations = total
+    from .. import burst
+
+    burst.report(chk, "parsing must not depend on how the bytes arrive")
     chk.assumptions += [
         "bytes are mapped 1:1 onto the model alphabet (payload, undecodable payload, separator bytes); serializers whose payload is not "
         "byte-transparent (base64, compressors) are covered by the content-free StreamAbs traces of C01",
